@@ -301,8 +301,16 @@ assert len(BY_NAME) == len(CATALOG)
 
 def select(tier: str, families: Optional[Sequence[str]] = None, kinds: Optional[Sequence[str]] = None,
            names: Optional[Sequence[str]] = None) -> List[Cfg]:
+    import os
+
+    env_f = os.environ.get("VERIF_FAMILIES")
+    env_m = os.environ.get("VERIF_MODELS")
     out = []
     for c in CATALOG:
+        if env_f and c.family not in env_f.split(","):
+            continue
+        if env_m and c.name not in env_m.split(","):
+            continue
         if tier == "quick" and not c.quick:
             continue
         if families is not None and c.family not in families:
